@@ -65,6 +65,7 @@ struct Obs {           // everything observed in one run
     Str childConsole;              // what forked children flushed to the console before they ended (real separate-process mode)
     Vec<int64_t> procLog;          // C11: (test, what, value) triples: 1 fork, 2 waitpid call, 3 kill(sig), 4 script exhausted (hang), 5 fork failed
     Str finalReport; int pluginCount, pluginCountExpected; int removedStillFound;
+    Str wrapperProblems;           // what went wrong around the static RunAllTests entry point (epilogue of some runs)
     Obs() : ret(0), parsedOk(true), depthAtStart(0), depthAtEnd(0), maxDepth(0), ctxOkAtEnd(true), finalProbe(0), slotLeftovers(false), pluginCount(0), pluginCountExpected(0), removedStillFound(0), writesAfterClose(0), badHandle(0) {}
 };
 
